@@ -163,7 +163,7 @@ fn props() -> Vec<Property> {
     Property {
         id: "C03",
         title: "Requests and responses on the wire are spec-conformant gRPC",
-        scenarios: vec![scn_c01(), scn_c06_enc(), scn_c02_f(), scn_n_client_view(), scn_n_server_view(), Scenario { name: "F-origin-path", engine: "F", run: c03::run_origin, quick: 4_000, thorough: 150_000, grid: 0, what: "generated client built with_origin (with/without a path prefix, trailing slashes) in front of a foreign peer: :path keeps the prefix and ends in /package.Service/Method, POST, te, content-type, all four shapes" }],
+        scenarios: vec![scn_c01(), scn_c06_enc(), scn_c02_f(), scn_n_client_view(), scn_n_server_view(), Scenario { name: "N-unknown-path", engine: "N", run: nwire::run_unknown_path, quick: 6_000, thorough: 300_000, grid: 0, what: "raw h2 client -> tonic Server with three generated services: unknown method of a known service (generated fallback arm), unknown service and odd paths (router fallback): 200, content-type application/grpc, exactly one grpc-status 12, no body, no handler entered" }, Scenario { name: "F-origin-path", engine: "F", run: c03::run_origin, quick: 4_000, thorough: 150_000, grid: 0, what: "generated client built with_origin (with/without a path prefix, trailing slashes) in front of a foreign peer: :path keeps the prefix and ends in /package.Service/Method, POST, te, content-type, all four shapes" }],
         rule: "passive wire monitor on the C01/C06 (and loopback) runs: every emitted body is parsed by the independent decoder; non-trivial/distinct as in the host scenario",
         real_vs_stub: RVS_F.to_vec(),
         assumptions: vec!["'nothing after the trailers block' is judged the way hyper's HTTP/2 sender consumes a body (stops after trailers / error / None / end-stream flag)"],
@@ -199,6 +199,7 @@ fn props() -> Vec<Property> {
             scn_n_server_view(),
             Scenario { name: "F-foreign-to-server", engine: "F", run: c08::run_to_server, quick: 40_000, thorough: 2_400_000, grid: 0, what: "foreign client peer sends padded/unpadded base64 -bin values and repeated keys; the handler reads them through the typed accessors" },
             Scenario { name: "F-foreign-to-client", engine: "F", run: c08::run_to_client, quick: 40_000, thorough: 2_400_000, grid: 0, what: "foreign server peer sends metadata in response headers, trailers and error statuses (padded/unpadded); the caller reads them through the typed accessors" },
+            Scenario { name: "F-status-in-error-chain", engine: "F", run: c08::run_status_in_chain, quick: 20_000, thorough: 600_000, grid: 0, what: "a Status with details and metadata behind 1..3 wrapper errors (Error::source), handed to Status::from_error or surfacing as the body error of a response stream: code, message, details and every metadata entry survive" },
         ],
         rule: "one run = metadata maps (ASCII/binary, repeated keys, reserved-name canaries, byte strings of every length mod 3) on requests, responses, trailers and error statuses crossing tonic<->tonic or tonic<->foreign peer; non-trivial = at least one metadata entry or error status; distinct = distinct hash of structural tape decisions",
         real_vs_stub: RVS_F.to_vec(),
@@ -330,5 +331,9 @@ fn main() {
     if let Ok(f) = std::env::var("TSIM_LOG") {
         let _ = tracing_subscriber::fmt().with_env_filter(f).without_time().with_writer(std::io::stdout).try_init();
     }
+    simcore::runner::set_run_prelude(|| {
+        rawcodec::reset();
+        c02::reset_client_clone_mode();
+    });
     simcore::main_with(props());
 }
